@@ -233,6 +233,8 @@ impl MultiRecordLog {
 
         for (queue_id, queue) in self.in_mem_queues.empty_queues() {
             let next_position = queue.next_position();
+            #[cfg(mrecordlog_verif)]
+            crate::verif_hooks::note_gc_queue(queue_id);
             let record = MultiPlexedRecord::RecordPosition {
                 queue: queue_id,
                 position: next_position,
